@@ -768,9 +768,13 @@ impl SelectorTrack {
             });
         }
         {
+            #[cfg(rustrtc_verif)]
+            crate::verif::sched("sw_replace");
             let mut current = self.current_track.lock().await;
             *current = track;
         }
+        #[cfg(rustrtc_verif)]
+        crate::verif::sched("sw_notify");
         self.switch_notify.notify_waiters();
         Ok(())
     }
@@ -795,7 +799,11 @@ impl MediaStreamTrack for SelectorTrack {
 
     async fn recv(&self) -> MediaResult<MediaSample> {
         loop {
+            #[cfg(rustrtc_verif)]
+            crate::verif::sched("sel_read");
             let track = self.current_track.lock().await.clone();
+            #[cfg(rustrtc_verif)]
+            crate::verif::sched("sel_wait");
             tokio::select! {
                 res = track.recv() => return res,
                 _ = self.switch_notify.notified() => {
